@@ -9,7 +9,11 @@ for d in sorted(glob.glob("/verif/seeded/C*-*"), key=lambda p: (os.path.basename
     try:
         m = json.load(open(os.path.join(d, "meta.json")))
         r = m.get("results", m)
-        v = (r.get("recheck") or {}).get("check_verdict") or r.get("check_verdict") or "?"
+        rc = r.get("recheck") or {}
+        first = r.get("check_verdict") or "?"
+        v = rc.get("verdict") or rc.get("check_verdict") or first
+        if first != "CAUGHT" and v == "CAUGHT":
+            v = "CAUGHT (after the check was extended; %s as delivered)" % first
     except Exception: v = "?"
     rows.append("| %s | %s | %s |" % (sid, title.replace("|", "/")[:110], v))
 p = "/verif/DESIGN.md"
